@@ -2,7 +2,7 @@
 //! over the seeded histories of `tendril_hist`.
 
 use serde_json::{json, Value};
-use tendril_hist::{fmt_name, gen_selected, ledger, ops_from_text, ops_to_text, run_selected, Observer, Op, N_KINDS};
+use tendril_hist::{fmt_name, gen_selected_scale, ledger, ops_from_text, ops_to_text, run_selected, Observer, Op, N_KINDS};
 
 use crate::rng::{fnv1a, Rng};
 use crate::world::{greedy_min, CaseInfo, Stats, Violation, World};
@@ -205,7 +205,7 @@ impl World for TendrilWorld {
         let atomic = rng.chance(1, 2);
         let max_ops = if thorough { 120 } else { 60 };
         let mut hr = tendril_hist::rng::Rng::new(rng.next_u64());
-        let ops = gen_selected(fmt, &mut hr, max_ops);
+        let ops = gen_selected_scale(fmt, &mut hr, max_ops);
         emit(&TCase { fmt, atomic, ops })
     }
     fn check(&self, case: &Value, stats: &mut Stats, _t: &[String]) -> (CaseInfo, Result<(), Violation>) {
@@ -259,7 +259,7 @@ impl World for TendrilWorld {
         self.prop == TProp::C12
     }
     fn expected_probes(&self) -> Vec<&'static str> {
-        let mut v = vec!["transition_small_to_large-owned", "transition_large-owned_to_shared", "transition_shared_to_large-owned", "op_push_tendril", "op_try_subtendril"];
+        let mut v = vec!["transition_small_to_large-owned", "transition_large-owned_to_shared", "transition_shared_to_large-owned", "op_push_tendril", "op_try_subtendril", "op_push_big"];
         if self.prop == TProp::C12 {
             v.push("ledger_tracked_allocations");
         }
